@@ -14,56 +14,76 @@ Definition damaged_manifest (st : store) (k : key) : Prop :=
 Lemma outcome_eq_dec : forall a b : outcome, {a = b} + {a <> b}.
 Proof. decide equality. decide equality. Qed.
 
-Lemma gc_run_lists_ok : forall tp grace now timeout o snaps st,
-  r_out (gc_run tp grace now timeout o snaps st) <> Aborted PhLists ->
-  exists mpaths g1, read_all WList o (mkG 0 st []) (norm_set tp snaps) = (Some mpaths, g1).
+Lemma aborted_before_sweep_dec : forall r, {aborted_before_sweep r} + {~ aborted_before_sweep r}.
 Proof.
-  intros tp grace now timeout o snaps st H. unfold gc_run, gc_run_from in H.
-  destruct (read_all WList o (mkG 0 st []) (norm_set tp snaps)) as [[mp|] g1] eqn:E; [exists mp, g1; reflexivity|]. exfalso. apply H. reflexivity.
+  intro r. unfold aborted_before_sweep.
+  destruct (outcome_eq_dec (r_out r) (Aborted PhLists)); [left; auto|].
+  destruct (outcome_eq_dec (r_out r) (Aborted PhManifests)); [left; auto|].
+  destruct (outcome_eq_dec (r_out r) (Aborted PhMarkers)); [left; auto|]. right. tauto.
 Qed.
 
-Lemma gc_run_manifests_ok : forall tp grace now timeout o snaps st,
-  r_out (gc_run tp grace now timeout o snaps st) <> Aborted PhLists ->
-  r_out (gc_run tp grace now timeout o snaps st) <> Aborted PhManifests ->
-  exists mpaths g1 entries g2, read_all WList o (mkG 0 st []) (norm_set tp snaps) = (Some mpaths, g1)
-     /\ read_all WManifest o g1 (norm_set tp mpaths) = (Some entries, g2).
+Lemma sweeps_not_early : forall tp grace now o rl rm rd prot g, ~ aborted_before_sweep (sweeps tp grace now o rl rm rd prot g).
 Proof.
-  intros tp grace now timeout o snaps st H1 H2. unfold gc_run, gc_run_from in *.
-  destruct (read_all WList o (mkG 0 st []) (norm_set tp snaps)) as [[mp|] g1] eqn:E1; [|exfalso; apply H1; reflexivity].
-  destruct (read_all WManifest o g1 (norm_set tp mp)) as [[es|] g2] eqn:E2; [exists mp, g1, es, g2; auto|]. exfalso. apply H2. reflexivity.
+  intros. unfold sweeps.
+  destruct (sweep tp grace now (rd ++ prot) o g DATA_PREFIX []) as [[b1 d1] g4]. destruct b1; [intros [H|[H|H]]; discriminate|].
+  destruct (sweep tp grace now ((rm ++ rl) ++ prot) o g4 MANIFESTS_PREFIX d1) as [[b2 d2] g5]. destruct b2; intros [H|[H|H]]; discriminate.
 Qed.
 
-(* every damage class of a reachable manifest list aborts, whatever else fails *)
-Theorem damaged_list_aborts : forall tp grace now timeout o snaps st k,
-  wf_store snaps st -> ref_list snaps k -> damaged_list st k ->
-  r_out (gc_run tp grace now timeout o snaps st) = Aborted PhLists /\ r_deleted (gc_run tp grace now timeout o snaps st) = [].
+Lemma reach_abort_phase : forall tp o snaps g ph rl rm g', reach tp o snaps g = (RAbort ph rl rm, g') -> ph = PhLists \/ ph = PhManifests.
 Proof.
-  intros tp grace now timeout o snaps st k WF R D.
-  assert (A: r_out (gc_run tp grace now timeout o snaps st) = Aborted PhLists).
-  { destruct (outcome_eq_dec (r_out (gc_run tp grace now timeout o snaps st)) (Aborted PhLists)) as [E|NE]; [exact E|exfalso].
-    destruct (gc_run_lists_ok _ _ _ _ _ _ _ NE) as [mp [g1 RL]].
-    destruct (read_all_sound _ _ _ _ _ _ RL) as [A _]. cbn [g_store] in A.
-    destruct (A k (lists_complete tp snaps st WF k R)) as [xs [[ob [L B]] _]].
-    unfold damaged_list in D. rewrite L in D. congruence. }
-  split; [exact A|]. apply (gs_abort_clean _ _ _ _ _ _ (gc_safe_all_faults tp grace now timeout o snaps st WF)). left. exact A.
+  intros tp o snaps g ph rl rm g' H. unfold reach in H.
+  destruct (read_all WList o g (norm_set tp snaps)) as [[mp|] g1]; [|inversion H; auto].
+  destruct (read_all WManifest o g1 (norm_set tp mp)) as [[es|] g2]; inversion H; auto.
 Qed.
 
-Theorem damaged_manifest_aborts : forall tp grace now timeout o snaps st k,
-  wf_store snaps st -> ref_manifest snaps st k -> damaged_manifest st k ->
-  (r_out (gc_run tp grace now timeout o snaps st) = Aborted PhLists \/ r_out (gc_run tp grace now timeout o snaps st) = Aborted PhManifests)
-  /\ r_deleted (gc_run tp grace now timeout o snaps st) = [].
+(* a run that gets to the sweeps completed the reachability phase, on a store that lost at most abandoned markers *)
+Lemma run_reached : forall mf tp grace now timeout o snaps g0,
+  markers_wf (g_store g0) ->
+  ~ aborted_before_sweep (gc_run_from mf tp grace now timeout o snaps g0) ->
+  exists g g' rl rm rd, reach tp o snaps g = (ROk rl rm rd, g') /\ only_markers_removed now timeout (g_store g0) (g_store g)
+                        /\ sub_store (g_store g) (g_store g0).
 Proof.
-  intros tp grace now timeout o snaps st k WF R D.
-  assert (A: r_out (gc_run tp grace now timeout o snaps st) = Aborted PhLists \/ r_out (gc_run tp grace now timeout o snaps st) = Aborted PhManifests).
-  { destruct (outcome_eq_dec (r_out (gc_run tp grace now timeout o snaps st)) (Aborted PhLists)) as [E|NE]; [left; exact E|].
-    destruct (outcome_eq_dec (r_out (gc_run tp grace now timeout o snaps st)) (Aborted PhManifests)) as [E|NE2]; [right; exact E|exfalso].
-    destruct (gc_run_manifests_ok _ _ _ _ _ _ _ NE NE2) as [mp [g1 [es [g2 [RL RM]]]]].
-    destruct (read_all_sound _ _ _ _ _ _ RM) as [A _].
-    rewrite (g1_store tp snaps st o (mkG 0 st []) g1 mp eq_refl RL) in A.
-    destruct (A k (manifests_complete tp snaps st WF o (mkG 0 st []) g1 mp eq_refl RL k R)) as [xs [[ob [L B]] _]].
-    unfold damaged_manifest in D. rewrite L in D. congruence. }
-  split; [exact A|]. apply (gs_abort_clean _ _ _ _ _ _ (gc_safe_all_faults tp grace now timeout o snaps st WF)).
-  destruct A as [A|A]; [left|right; left]; exact A.
+  intros mf tp grace now timeout o snaps g0 MW H. unfold gc_run_from in H. destruct mf.
+  - destruct (load_protection tp timeout now o g0) as [[prot|] g1] eqn:LP.
+    2:{ exfalso. apply H. right. right. reflexivity. }
+    destruct (reach tp o snaps g1) as [[ph rl rm|rl rm rd] g2] eqn:RE.
+    + exfalso. apply H. destruct (reach_abort_phase _ _ _ _ _ _ _ _ RE) as [-> | ->]; [left|right; left]; reflexivity.
+    + exists g1, g2, rl, rm, rd. split; [exact RE|]. split; [eapply load_protection_omr; eauto|eapply load_protection_sub; eauto].
+  - destruct (reach tp o snaps g0) as [[ph rl rm|rl rm rd] g1] eqn:RE.
+    + exfalso. apply H. destruct (reach_abort_phase _ _ _ _ _ _ _ _ RE) as [-> | ->]; [left|right; left]; reflexivity.
+    + exists g0, g1, rl, rm, rd. split; [exact RE|]. split; [apply omr_refl|apply sub_refl].
+Qed.
+
+Lemma reach_ok_reads : forall tp o snaps g rl rm rd g', reach tp o snaps g = (ROk rl rm rd, g') ->
+  exists mpaths g1 entries, rl = norm_set tp snaps /\ rm = norm_set tp mpaths
+    /\ read_all WList o g rl = (Some mpaths, g1) /\ read_all WManifest o g1 rm = (Some entries, g').
+Proof.
+  intros tp o snaps g rl rm rd g' H. unfold reach in H.
+  destruct (read_all WList o g (norm_set tp snaps)) as [[mp|] g1] eqn:RL; [|discriminate].
+  destruct (read_all WManifest o g1 (norm_set tp mp)) as [[es|] g2] eqn:RM; [|discriminate].
+  inversion H; subst. exists mp, g1, es. auto.
+Qed.
+
+(* every damage class of a reachable manifest list or manifest aborts before the sweeps, whatever else fails *)
+Theorem damaged_aborts_from : forall mf tp grace now timeout o snaps g0 k,
+  wf_store snaps (g_store g0) ->
+  (ref_list snaps k /\ damaged_list (g_store g0) k) \/ (ref_manifest snaps (g_store g0) k /\ damaged_manifest (g_store g0) k) ->
+  aborted_before_sweep (gc_run_from mf tp grace now timeout o snaps g0) /\ r_deleted (gc_run_from mf tp grace now timeout o snaps g0) = [].
+Proof.
+  intros mf tp grace now timeout o snaps g0 k WF D. set (st := g_store g0) in *.
+  assert (A: aborted_before_sweep (gc_run_from mf tp grace now timeout o snaps g0)).
+  { destruct (aborted_before_sweep_dec (gc_run_from mf tp grace now timeout o snaps g0)) as [A|NA]; [exact A|exfalso].
+    destruct (run_reached mf tp grace now timeout o snaps g0 (wf_store_markers _ _ WF) NA) as [g [g' [rl [rm [rd [RE [O SUB]]]]]]]. fold st in O, SUB.
+    assert (WF1: wf_store snaps (g_store g)) by (destruct O; eapply wf_store_le; eauto; eapply sub_nodup; eauto; exact (wf_nodup _ _ WF)).
+    pose proof (reach_ok _ _ _ _ _ _ _ _ WF1 RE) as RC.
+    destruct (reach_ok_reads _ _ _ _ _ _ _ _ RE) as [mp [g1 [es [-> [-> [RL RM]]]]]].
+    pose proof O as [LE _]. destruct (referenced_transfer now timeout snaps st (g_store g) WF O) as [TM _]. destruct D as [[R Dm]|[R Dm]].
+    - destruct (read_all_sound _ _ _ _ _ _ RL) as [S _]. destruct (S k (rc_lists _ _ _ _ _ RC k R)) as [xs [[ob [L B]] _]].
+      apply LE in L. unfold damaged_list in Dm. rewrite L in Dm. congruence.
+    - destruct (read_all_sound _ _ _ _ _ _ RM) as [S _]. rewrite (read_all_store _ _ _ _ _ _ RL) in S.
+      destruct (S k (rc_manifests _ _ _ _ _ RC k (TM k R))) as [xs [[ob [L B]] _]].
+      apply LE in L. unfold damaged_manifest in Dm. rewrite L in Dm. congruence. }
+  split; [exact A|]. exact (gs_abort_clean _ _ _ _ _ _ (gc_safe_from mf tp grace now timeout o snaps g0 WF) A).
 Qed.
 
 (* ------------------------------------------------------------------ transient failures *)
@@ -142,43 +162,51 @@ Proof.
     eapply trace_ext_trans; eauto.
 Qed.
 
-(* a collection that gets past the reachability phase read every list and manifest without an effective fault *)
-Theorem reach_phase_fault_free : forall tp grace now timeout o snaps st,
-  r_out (gc_run tp grace now timeout o snaps st) <> Aborted PhLists ->
-  r_out (gc_run tp grace now timeout o snaps st) <> Aborted PhManifests ->
-  exists mpaths g1 entries g2,
-    read_all WList o (mkG 0 st []) (norm_set tp snaps) = (Some mpaths, g1)
+(* a collection that gets to the sweeps read every list and manifest without an effective fault *)
+Theorem reach_phase_fault_free_from : forall mf tp grace now timeout o snaps g0,
+  markers_wf (g_store g0) ->
+  ~ aborted_before_sweep (gc_run_from mf tp grace now timeout o snaps g0) ->
+  exists g mpaths g1 entries g2,
+    only_markers_removed now timeout (g_store g0) (g_store g)
+    /\ read_all WList o g (norm_set tp snaps) = (Some mpaths, g1)
     /\ read_all WManifest o g1 (norm_set tp mpaths) = (Some entries, g2)
-    /\ (forall c f, In (c, Some f) (g_trace g1) -> absorbed_open st WList c f)
-    /\ (forall c f, In (c, Some f) (g_trace g2) -> absorbed_open st WList c f \/ absorbed_open st WManifest c f).
+    /\ trace_ext (g_store g) WList g g1 /\ trace_ext (g_store g) WManifest g1 g2.
 Proof.
-  intros tp grace now timeout o snaps st H1 H2.
-  destruct (gc_run_manifests_ok _ _ _ _ _ _ _ H1 H2) as [mp [g1 [es [g2 [RL RM]]]]].
-  exists mp, g1, es, g2. split; [exact RL|]. split; [exact RM|].
-  pose proof (read_all_store _ _ _ _ _ _ RL) as S1. cbn [g_store] in S1.
-  apply read_all_transient in RL. apply read_all_transient in RM. rewrite S1 in RM. cbn [g_store] in RL.
-  destruct RL as [d1 [E1 A1]]. destruct RM as [d2 [E2 A2]]. cbn [g_trace] in E1. rewrite app_nil_r in E1.
-  split.
-  - intros c f Hin. rewrite E1 in Hin. auto.
-  - intros c f Hin. rewrite E2, E1 in Hin. apply in_app_or in Hin. destruct Hin; auto.
+  intros mf tp grace now timeout o snaps g0 MW NA.
+  destruct (run_reached mf tp grace now timeout o snaps g0 MW NA) as [g [g' [rl [rm [rd [RE [O _]]]]]]].
+  destruct (reach_ok_reads _ _ _ _ _ _ _ _ RE) as [mp [g1 [es [-> [-> [RL RM]]]]]].
+  exists g, mp, g1, es, g'. split; [exact O|]. split; [exact RL|]. split; [exact RM|].
+  pose proof (read_all_store _ _ _ _ _ _ RL) as S1. split.
+  - eapply read_all_transient; eauto.
+  - rewrite <- S1. eapply read_all_transient; eauto.
+Qed.
+
+Theorem reach_phase_fault_free : forall tp grace now timeout o snaps st,
+  wf_store snaps st ->
+  ~ aborted_before_sweep (gc_run tp grace now timeout o snaps st) ->
+  exists g mpaths g1 entries g2,
+    only_markers_removed now timeout st (g_store g)
+    /\ read_all WList o g (norm_set tp snaps) = (Some mpaths, g1)
+    /\ read_all WManifest o g1 (norm_set tp mpaths) = (Some entries, g2)
+    /\ trace_ext (g_store g) WList g g1 /\ trace_ext (g_store g) WManifest g1 g2.
+Proof.
+  intros tp grace now timeout o snaps st WF NA. unfold gc_run in NA.
+  exact (reach_phase_fault_free_from MARKERS_FIRST tp grace now timeout o snaps (mkG 0 st []) (wf_store_markers _ _ WF) NA).
 Qed.
 
 (* deleted keys were listed under data/ or metadata/manifests/ (or are the "../x" entry): never marker keys *)
-Lemma deleted_not_marker : forall tp grace now timeout o snaps st,
-  wf_store snaps st -> forall k, In k (r_deleted (gc_run tp grace now timeout o snaps st)) -> is_marker_key k -> False.
+Lemma sweeps_deleted_not_marker : forall tp grace now o rl rm rd prot g k,
+  In k (r_deleted (sweeps tp grace now o rl rm rd prot g)) -> is_marker_key k -> False.
 Proof.
-  intros tp grace now timeout o snaps st WF k. unfold gc_run, gc_run_from.
-  destruct (read_all WList o (mkG 0 st []) (norm_set tp snaps)) as [[mp|] g1]; [|intros []].
-  destruct (read_all WManifest o g1 (norm_set tp mp)) as [[es|] g2]; [|intros []].
-  destruct (load_protection tp timeout now o g2) as [[prot|] g3]; [|intros []].
-  destruct (sweep tp grace now (map (normalize_path tp) es ++ prot) o g3 DATA_PREFIX []) as [[b1 d1] g4] eqn:SW1.
+  intros tp grace now o rl rm rd prot g k. unfold sweeps.
+  destruct (sweep tp grace now (rd ++ prot) o g DATA_PREFIX []) as [[b1 d1] g4] eqn:SW1.
   apply sweep_spec in SW1. destruct SW1 as [_ [A2 _]].
   assert (D1: forall k0, In k0 d1 -> is_marker_key k0 -> False).
   { intros k0 Hk [M _]. destruct (A2 k0 Hk) as [[]|[[Hp| ->] _]].
     - rewrite (marker_not_data k0 M) in Hp. discriminate.
     - discriminate. }
   destruct b1; [exact (D1 k)|].
-  destruct (sweep tp grace now ((norm_set tp mp ++ norm_set tp snaps) ++ prot) o g4 MANIFESTS_PREFIX d1) as [[b2 d2] g5] eqn:SW2.
+  destruct (sweep tp grace now ((rm ++ rl) ++ prot) o g4 MANIFESTS_PREFIX d1) as [[b2 d2] g5] eqn:SW2.
   apply sweep_spec in SW2. destruct SW2 as [_ [B2 _]].
   assert (D2: forall k0, In k0 d2 -> is_marker_key k0 -> False).
   { intros k0 Hk M. destruct (B2 k0 Hk) as [Hk1|[[Hp| ->] _]]; [exact (D1 k0 Hk1 M)| |].
@@ -187,17 +215,23 @@ Proof.
   destruct b2; exact (D2 k).
 Qed.
 
+Lemma deleted_not_marker_from : forall mf tp grace now timeout o snaps g0 k,
+  In k (r_deleted (gc_run_from mf tp grace now timeout o snaps g0)) -> is_marker_key k -> False.
+Proof.
+  intros mf tp grace now timeout o snaps g0 k. unfold gc_run_from. destruct mf.
+  - destruct (load_protection tp timeout now o g0) as [[prot|] g1]; [|intros []].
+    destruct (reach tp o snaps g1) as [[ph rl rm|rl rm rd] g2]; [intros []|apply sweeps_deleted_not_marker].
+  - destruct (reach tp o snaps g0) as [[ph rl rm|rl rm rd] g1]; [intros []|].
+    destruct (load_protection tp timeout now o g1) as [[prot|] g2]; [apply sweeps_deleted_not_marker|intros []].
+Qed.
+
 Theorem damage_aborts : forall (tp : string) (grace now timeout : Z) (o : oracle) (snaps : list string) (st : store) (k : key),
   wf_store snaps st ->
-  (ref_list snaps k -> damaged_list st k ->
-     r_out (gc_run tp grace now timeout o snaps st) = Aborted PhLists /\ r_deleted (gc_run tp grace now timeout o snaps st) = []) /\
-  (ref_manifest snaps st k -> damaged_manifest st k ->
-     (r_out (gc_run tp grace now timeout o snaps st) = Aborted PhLists \/ r_out (gc_run tp grace now timeout o snaps st) = Aborted PhManifests)
-     /\ r_deleted (gc_run tp grace now timeout o snaps st) = []).
+  (ref_list snaps k /\ damaged_list st k) \/ (ref_manifest snaps st k /\ damaged_manifest st k) ->
+  aborted_before_sweep (gc_run tp grace now timeout o snaps st) /\ r_deleted (gc_run tp grace now timeout o snaps st) = [].
 Proof.
-  intros tp grace now timeout o snaps st k W. split; intros R D.
-  - exact (damaged_list_aborts tp grace now timeout o snaps st k W R D).
-  - exact (damaged_manifest_aborts tp grace now timeout o snaps st k W R D).
+  intros tp grace now timeout o snaps st k W D. unfold gc_run.
+  exact (damaged_aborts_from MARKERS_FIRST tp grace now timeout o snaps (mkG 0 st []) k W D).
 Qed.
 
 Theorem marker_keep : forall (tp : string) (grace now timeout : Z) (o : oracle) (snaps : list string) (st : store),
@@ -210,5 +244,5 @@ Proof.
   intros tp grace now timeout o snaps st W r. pose proof (gc_safe_all_faults tp grace now timeout o snaps st W) as S. split.
   - exact (gs_marker_keep _ _ _ _ _ _ S).
   - intros mk ob L M N. destruct (gs_store _ _ _ _ _ _ S mk ob L N) as [D|[Old _]]; [|exact Old].
-    exfalso. exact (deleted_not_marker tp grace now timeout o snaps st W mk D M).
+    exfalso. exact (deleted_not_marker_from MARKERS_FIRST tp grace now timeout o snaps (mkG 0 st []) mk D M).
 Qed.
